@@ -237,8 +237,20 @@ func (dec *ttlvReader) assertType(ty Type, tag int) error {
 	return nil
 }
 
+// assertFixed checks the tag and type of the current item like assertType, and
+// also that its declared length is the one its fixed-width type requires.
+func (dec *ttlvReader) assertFixed(ty Type, tag int, length int) error {
+	if err := dec.assertType(ty, tag); err != nil {
+		return err
+	}
+	if dec.len() != length {
+		return Errorf("Invalid TTLV length for tag %s. Got %d but %s requires %d", TagString(tag), dec.len(), ty, length)
+	}
+	return nil
+}
+
 func (dec *ttlvReader) Integer(tag int) (int32, error) {
-	if err := dec.assertType(TypeInteger, tag); err != nil {
+	if err := dec.assertFixed(TypeInteger, tag, 4); err != nil {
 		return 0, err
 	}
 	//nolint:gosec // this cast is safe as we are parsing raw bytes.
@@ -247,7 +259,7 @@ func (dec *ttlvReader) Integer(tag int) (int32, error) {
 }
 
 func (dec *ttlvReader) LongInteger(tag int) (int64, error) {
-	if err := dec.assertType(TypeLongInteger, tag); err != nil {
+	if err := dec.assertFixed(TypeLongInteger, tag, 8); err != nil {
 		return 0, err
 	}
 	//nolint:gosec // this cast is safe as we are parsing raw bytes.
@@ -264,7 +276,7 @@ func (dec *ttlvReader) BigInteger(tag int) (*big.Int, error) {
 }
 
 func (dec *ttlvReader) Enum(realtag, tag int) (uint32, error) {
-	if err := dec.assertType(TypeEnumeration, tag); err != nil {
+	if err := dec.assertFixed(TypeEnumeration, tag, 4); err != nil {
 		return 0, err
 	}
 	v := binary.BigEndian.Uint32(dec.value())
@@ -272,7 +284,7 @@ func (dec *ttlvReader) Enum(realtag, tag int) (uint32, error) {
 }
 
 func (dec *ttlvReader) Bool(tag int) (bool, error) {
-	if err := dec.assertType(TypeBoolean, tag); err != nil {
+	if err := dec.assertFixed(TypeBoolean, tag, 8); err != nil {
 		return false, err
 	}
 	v := dec.value()[7] != 0
@@ -308,7 +320,7 @@ func (dec *ttlvReader) ByteString(tag int) ([]byte, error) {
 }
 
 func (dec *ttlvReader) DateTime(tag int) (time.Time, error) {
-	if err := dec.assertType(TypeDateTime, tag); err != nil {
+	if err := dec.assertFixed(TypeDateTime, tag, 8); err != nil {
 		return time.Time{}, err
 	}
 	//nolint:gosec // this cast is safe as we are parsing raw bytes.
@@ -317,7 +329,7 @@ func (dec *ttlvReader) DateTime(tag int) (time.Time, error) {
 }
 
 func (dec *ttlvReader) Interval(tag int) (time.Duration, error) {
-	if err := dec.assertType(TypeInterval, tag); err != nil {
+	if err := dec.assertFixed(TypeInterval, tag, 4); err != nil {
 		return 0, err
 	}
 	v := time.Duration(binary.BigEndian.Uint32(dec.value())) * time.Second
